@@ -32,15 +32,33 @@ func statusOK(b *BaseStore, who string) {
 func VerifC19History() {
 	steps := vstub.Param("STEPS", 3)
 	blocks := vstub.NewBlocks(nil)
-	a, envA := openWith("a", blocks, nil, nil)
+	sa, envA := c13Open("a", blocks, nil, nil)
 	b, _ := openWith("b", blocks, nil, nil)
-	if a == nil || b == nil {
+	if sa == nil || b == nil {
 		return
 	}
+	a := &sa.BaseStore
 	ctx := context.Background()
 	var pa, ma, pb, mb int
+	saved := false
 	for s := 0; s < steps; s++ {
-		switch vstub.NdChoice("step", 4) {
+		switch vstub.NdChoice("step", 6) {
+		case 4: // a saves a snapshot of its current log
+			if _, err := SaveSnapshot(ctx, sa); err != nil {
+				vstub.Fail("C19 SaveSnapshot failed")
+				return
+			}
+			saved = true
+			vstub.Cover("snapshot-saved")
+		case 5: // a (open, possibly ahead of the snapshot by now) loads the last snapshot
+			if !saved {
+				continue
+			}
+			if err := a.LoadFromSnapshot(ctx); err != nil {
+				vstub.Fail("C19 LoadFromSnapshot failed")
+				return
+			}
+			vstub.Cover("snapshot-loaded")
 		case 0:
 			_, _ = a.AddOperation(ctx, operation.NewOperation(nil, "ADD", []byte{'a', byte(s)}), nil)
 		case 1:
@@ -73,4 +91,19 @@ func VerifC19History() {
 	vstub.WaitIdle()
 	statusOK(r, "reloaded")
 	vstub.Cover("reloaded")
+	if saved {
+		// a fresh store that loads the snapshot is at rest with a complete log too
+		_ = r.Close()
+		f, _ := c13Open("a", blocks, envA.Cache, envA.IPFS.Files)
+		if f == nil {
+			return
+		}
+		if err := f.LoadFromSnapshot(ctx); err != nil {
+			vstub.Fail("C19 LoadFromSnapshot on a fresh store failed")
+			return
+		}
+		vstub.WaitIdle()
+		statusOK(&f.BaseStore, "fresh store loaded from a snapshot")
+		vstub.Cover("fresh-from-snapshot")
+	}
 }
